@@ -1,4 +1,5 @@
 SPECIFICATION Spec
-CONSTANTS Scenarios <- ScHonest
+CONSTANTS Scenarios <- ScHonestAll
+          ServerStrictRule = "peer"
 INVARIANTS Emit
 CHECK_DEADLOCK FALSE
